@@ -54,6 +54,18 @@ Definition strict_op (p : part) (o : op) : Prop :=
   | _ => True
   end.
 
+(* arguments the implementation rejects (InvalidTimePointException): a negative time *)
+Definition rejected (o : op) : Prop :=
+  match o with
+  | OAdd _ s e => neg_opt s || neg_opt e = true
+  | OGetOrAdd t => t < 0
+  | _ => False
+  end.
+
+(* histories in which calls with rejected arguments are interleaved with the valid operations *)
+Fixpoint mixed_run (p : part) (ops : list op) : Prop :=
+  match ops with [] => True | o :: r => (valid_op p o \/ rejected o) /\ mixed_run (fst (step p o)) r end.
+
 Fixpoint valid_run (p : part) (ops : list op) : Prop :=
   match ops with [] => True | o :: r => valid_op p o /\ valid_run (fst (step p o)) r end.
 Fixpoint strict_run (p : part) (ops : list op) : Prop :=
